@@ -55,6 +55,9 @@ package vm
 //@ typeinv mapval vm.StateChanges.index.elem.elem.elem : v != nil && v.slot != nil
 //@ typeinv fieldstore vm.StorageKey.slot nonnil
 //@ typeinv cellval *vm.Call nonnil
+// precompile maps: every registered precompile is a non-nil object (established by the package initialiser:
+// ground evaluation C14/ground/precompile-maps; never written afterwards: package frame C16/C17)
+//@ typeinv mapval var:vm.PrecompiledContractsHomestead nonnil
 
 // ---------------------------------------------------------------------------
 // vm/tracer.go
